@@ -82,7 +82,13 @@ class Thread(threading.Thread):
 
             tb = ''.join(traceback.format_exception(type(e), e, e.__traceback__))
             tb = f'[{threading.current_thread().name}] ' + tb
-            e.__cause__ = type(e)(tb)
+            try:
+                cause = type(e)(tb)
+            except Exception:
+                # The exception class can not be created from a single string
+                # (e.g. `UnicodeDecodeError`, or a class whose `__init__` takes two arguments).
+                cause = RuntimeError(tb)
+            e.__cause__ = cause
             e.__traceback__ = None
 
             self._future_.set_exception(e)
